@@ -181,7 +181,7 @@ def gen_enum(seed, k):
             forms += ["0x%X" % d, "%d_%s" % (d, suffix) if False else "%d%s" % (d, suffix), "0b%s" % bin(d)[2:], "0o%o" % d]
             if d >= 1000:
                 forms.append("{:,}".format(d).replace(",", "_"))
-        if not int_repr and d < 0 and rng.random() < 0.25:
+        if not int_repr and -2 ** 63 < d < 0 and rng.random() < 0.25:
             # negation of something that is not a literal: refused, or exact
             forms = [rng.choice(["-(%d)" % -d, "-NEG_%d" % -d, "-(%d + 0)" % -d])]
             maybe_refused.append(True)
@@ -472,6 +472,8 @@ def main(tier, seed, scale=1.0):
         bad_base.update(bdrop[b])
     for cid in bad_base:
         chk.inconc("baseline-rejected-by-rustc")
+        ds = [d for b in base for d in bdrop[b].get(cid, [])]
+        log("C04: the generated enum itself is not legal Rust (%s): %s" % (cid, (ds[0].get("rendered") or ds[0]["message"])[:600] if ds else "?"))
     if len(bad_base) > len(cases) // 3:
         log("C04: many generated enums are not valid Rust: %s" % list(bad_base)[:5])
     cases = [c for c in cases if c[0] not in bad_base]
